@@ -13,7 +13,12 @@ from props import c01
 PID = "C02"
 MODULES = ["FlVerif.Props.C02"]
 NAMESPACE = "C02"
-TIE_A = ["Norm.", "Hedge.", "Term.", "code:fuzzylite.engine.Engine.input_values.fset"]
+TIE_A = ["Norm.", "Hedge.", "Term.", "code:fuzzylite.engine.Engine.input_values.fset",
+         "code:fuzzylite.engine.Engine.input_values.fget", "code:fuzzylite.engine.Engine.output_values.fget",
+         "code:fuzzylite.engine.Engine.values.fget", "code:fuzzylite.engine.Engine.variables.fget",
+         "code:fuzzylite.engine.Engine.variable", "code:fuzzylite.engine.Engine.input_variable",
+         "code:fuzzylite.engine.Engine.output_variable", "code:fuzzylite.engine.Engine.rule_block",
+         "code:fuzzylite.engine.Engine.__getitem__"]
 RULE = ("engines with the General activation method (Mamdani, Larsen, Takagi-Sugeno, Tsukamoto, hybrid; every lock-previous / "
         "default / lock-range setting) x batches of 1..8 rows including NaN and +-inf rows, run three ways: (i) one batch "
         "through per-variable arrays, (ii) one batch through `engine.input_values = matrix`, (iii) row by row with Python "
